@@ -54,6 +54,31 @@ Theorem read_fresh_error_path : forall orc ds h s n s' v og,
 Proof. exact read_fresh_outcome. Qed.
 Print Assumptions read_fresh_error_path.
 
+(* Processors that PANIC (third outcome of a read).  Model ([pvalue], Graph/Nodes.v): when Data.Process() of a node
+   panics — its own code or a dependency's Value() called from it — the panic unwinds through process() and
+   Value(): nothing of that node (value, version, depVersions, flag) is updated, dependencies whose Value() had
+   already returned keep what their own evaluation committed; the caller recovers.  [prun] = histories whose
+   reads may panic ([pan] tells which processor panics on which input values).
+   After ANY such history, under every enumeration order:
+   - a read that returns a value returns the from-scratch value of the current wiring and parameters — whatever
+     panicked before; nothing is left marked up to date by a panicking read;
+   - a read that panics does so because some processor panics on the from-scratch values of its inputs;
+   - the read leaves the wiring alone, and Version() still equals the number of completed executions.
+   _partial: the full three-outcome statement is [eval_p pan fuel (graph_of (nodes s)) n = Some r] (the read
+   panics IF AND ONLY IF the from-scratch evaluation of n panics).  Missing direction: "a node served from its
+   cache would not panic from scratch", which needs the panic table carried through the cache invariant; the
+   check evaluates exactly this equivalence ([eval_p] in prop_ok) on every read of every history. *)
+Theorem read_fresh_three_outcomes_partial : forall pan orc ds h s n st' r,
+  oracle_ok orc ->
+  prun pan orc (init ds) h = Some s ->
+  pvalue (orc (clock s)) pan (fuel_of (nodes s)) (nodes s) n = Some (st', r) ->
+  match r with
+  | POk v => eval_now s n = Some v
+  | PPanic => genuine pan (graph_of (nodes s))
+  end /\ graph_of st' = graph_of (nodes s) /\ VC st'.
+Proof. exact read_fresh_with_panics. Qed.
+Print Assumptions read_fresh_three_outcomes_partial.
+
 (* Sentence 2, first half (stable order = the repaired code): once node n has executed (in step o,
    reaching s0'), it does not execute again during any continuation h2 none of whose operations sets
    a parameter in the dependency cone of n or re-wires a node of that cone (n itself included; cone
@@ -140,3 +165,24 @@ Example c11_failing_example :
     (exists s4, read sorted_oracle s3 2 = Some (s4, 104%Z) /\ execs_of (nodes s4) 1 = 2 /\ execs_of (nodes s4) 2 = 2) /\
     graph_of (nodes s3) = map oerase (failing_og 4%Z) /\ eval_outcome 4 (failing_og 4%Z) 2 = Some (104%Z, false).
 Proof. exact failing_witness. Qed.
+
+(* non-vacuity of the panic path: same graph, node 1 PANICS when its input is divisible by 3.  Parameter 4: node 2
+   serves 104.  Parameter 3: the read of node 2 panics, twice in a row (nothing was marked up to date), node 1
+   keeps version 1 and stays Stale.  Parameter 5: node 2 serves 105, the from-scratch value. *)
+Example c11_panicking_example :
+  let pan : pantab := fun n ins => (n =? 1) && (fold_right Z.add 0%Z (concat ins) mod 3 =? 0)%Z in
+  let ds := [DParam 4%Z; DStruct [("In"%string, false)] sum_proc; DStruct [("In"%string, false)] (served plus100_p)] in
+  exists s1 s2 s3,
+    prun pan sorted_oracle (init ds) [Connect 1 "In"%string 0; Connect 2 "In"%string 1; Read 2; SetParam 0 3%Z] = Some s1 /\
+    (exists st, pvalue sorted_order pan (fuel_of (nodes s1)) (nodes s1) 2 = Some (st, PPanic)) /\
+    prun pan sorted_oracle s1 [Read 2; Read 2] = Some s2 /\
+    ver_of (nodes s2) 1 = Some 1 /\ state_of sorted_order (nodes s2) 1 = Some true /\
+    eval_p pan 4 (graph_of (nodes s2)) 2 = Some PPanic /\
+    prun pan sorted_oracle s2 [SetParam 0 5%Z] = Some s3 /\
+    (exists st, pvalue sorted_order pan (fuel_of (nodes s3)) (nodes s3) 2 = Some (st, POk 105%Z)).
+Proof.
+  cbv zeta. eexists. eexists. eexists.
+  split; [vm_compute; reflexivity|]. split; [eexists; vm_compute; reflexivity|].
+  split; [vm_compute; reflexivity|]. split; [vm_compute; reflexivity|]. split; [vm_compute; reflexivity|].
+  split; [vm_compute; reflexivity|]. split; [vm_compute; reflexivity|]. eexists; vm_compute; reflexivity.
+Qed.
